@@ -1527,7 +1527,7 @@ class C12(Prop):
     title = "inputs never modified, gradients never aliased"
     rule = (
         "mixed histories (ops on tensors/arrays/views, out=, in-place, nnet layers) with backward seeded by caller arrays (also one array "
-        "re-used for two terminals), tensors, and arrays taken from .data/.grad; checksums of every caller-owned array and every tensor's data "
+        "re-used for two terminals), tensors, and arrays taken from .data/.grad, followed by copies/conversions of gradient-holding tensors; checksums of every caller-owned array and every tensor's data "
         "around every event; after backward pairwise grad/data aliasing and 'edit one gradient in place, re-checksum everything else'.  "
         "non-trivial when >=1 aliasing check ran after a seeded or unseeded backward; distinct by (event kind, outcome)"
     )
@@ -1781,8 +1781,9 @@ class C15(Prop):
     title = "no_autodiff / mem-guard switches are scoped, exception-safe, value-preserving"
     rule = (
         "random scope trees (depth <=6, <=30 nodes; no_autodiff / mem_guard_on / mem_guard_off as with-blocks or decorators, re-entrant use of the "
-        "same manager) whose bodies run MyGrad statements, process-wide toggles and explicit raises that unwind 1..k enclosing scopes; the "
-        "per-manager stack model is compared with the switches after every enter/exit/statement and every untracked statement is checked for "
+        "same manager) whose bodies run MyGrad statements, process-wide toggles and explicit raises that unwind 1..k enclosing scopes; in half of the "
+        "runs also scopes held open outside the call stack (generator suspended inside a with-block, ExitStack, manual __enter__) and left - "
+        "normally or by an exception - in any order relative to scopes of the other setting; the per-setting stack model is compared with the switches after every enter/exit/statement and every untracked statement is checked for "
         "'nothing recorded'.  non-trivial when >=1 scope was left by an exception; distinct by (event kind, outcome)"
     )
     expected_probes = ["c15.switch_checked", "c15.exceptional_exit", "c15.untracked_statement_checked", "c15.held_scope_opened", "c15.interleaved_exit"]
